@@ -552,6 +552,15 @@ def biaffine(shapes):
                     lambda v: (2.0 * v["x"] + 1.0) * (3.0 * v["z"] - 1.0))
         out += _run("rsome.lp:Affine.__add__", f"x{sx} + z{sz}", se, lambda o: o["x"] + o["z"], lambda v: v["x"] + v["z"])
         out += _run("rsome.lp:Affine.__add__", f"z{sz} - x{sx}", se, lambda o: o["z"] - o["x"], lambda v: v["z"] - v["x"])
+        out += _run("rsome.lp:Affine.__add__", f"z{sz} + x{sx}", se, lambda o: o["z"] + o["x"], lambda v: v["z"] + v["x"])
+        out += _run("rsome.lp:Affine.__add__", f"x{sx} - z{sz}", se, lambda o: o["x"] - o["z"], lambda v: v["x"] - v["z"])
+        if sx and sz:
+            A = "rsome.lp:Affine.__add__"
+            out += _run(A, f"z{sz}[0] + x{sx}[0]", se, lambda o: o["z"][0] + o["x"][0], lambda v: v["z"][0] + v["x"][0])
+            out += _run(A, f"x{sx}[0] + z{sz}[0]", se, lambda o: o["x"][0] + o["z"][0], lambda v: v["x"][0] + v["z"][0])
+            out += _run(A, f"z{sz}[0] - x{sx}[0]", se, lambda o: o["z"][0] - o["x"][0], lambda v: v["z"][0] - v["x"][0])
+            out += _run(A, f"z{sz} + x{sx}[0:1]", se, lambda o: o["z"] + o["x"][0:1], lambda v: v["z"] + v["x"][0:1])
+            out += _run(A, f"z{sz}[0:1] + x{sx}", se, lambda o: o["z"][0:1] + o["x"], lambda v: v["z"][0:1] + v["x"])
     mm = [((3,), (3,)), ((2, 3), (3,)), ((2, 3), (3, 2)), ((3,), (3, 2)), ((2, 2, 3), (3,)), ((2, 3), (2,)), ((1, 3), (3, 1))]
     for sx, sz in mm:
         def se(c, sx=sx, sz=sz):
